@@ -54,7 +54,11 @@ func composeReplay(e *env) error {
 			for i, en := range c.Log[1].Es {
 				rev[len(rev)-1-i] = en
 			}
-			blocks = append(blocks, absDay{Date: c.Log[0].Date, Es: rev})
+			d3 := c.Log[0].Date
+			if idx%2 == 1 {
+				d3 = c.Log[1].Date // the repeated date directly follows its first block
+			}
+			blocks = append(blocks, absDay{Date: d3, Es: rev})
 		} else {
 			blocks = append(blocks, absDay{Date: 2, Es: [][]int{}}) // an empty day appended
 		}
@@ -76,6 +80,14 @@ func composeReplay(e *env) error {
 			texts[i] = w.logText([]absDay{b}, cc)
 			if !strings.HasSuffix(texts[i], "\n") {
 				texts[i] += "\n"
+			}
+			// notes under the heading (print shows them): a named one in the first block, a bare '#' later
+			if j := strings.Index(texts[i], ":\n"); j >= 0 && idx%3 != 0 {
+				note := "  #\n"
+				if i == 0 {
+					note = "  # meal: block one\n"
+				}
+				texts[i] = texts[i][:j+2] + note + texts[i][j+2:]
 			}
 		}
 		book := w.bookText(c, cc)
